@@ -20,6 +20,11 @@
  *                                  includer (includeFile) on them, print every source line's
  *                                  position decoded, and the table.
  *        open <f> | line | lines <n> | ifz | skip | endif | hl <n> <f|-> | inc <f> | close
+ *   R ev ev ...                    as I, with `err <d> <id> <prio>` after an event that makes a source
+ *                                  line: after the real includer has run, comsgError(ExplicitMsg "m<id>")
+ *                                  is issued at sposOffset(that line's position, d), in the order of
+ *                                  <prio>; then the real comsgFini prints its report, which is
+ *                                  returned as  H:file:line  M:line:col:serial:text ...  n=<count>
  */
 #include "srcpos.c"
 #include "include.h"
@@ -32,6 +37,8 @@
 #include "comsg.h"
 #include "list.h"
 #include "drv_common.h"
+#include "absyn.h"
+#include "comsgdb.h"
 #include <unistd.h>
 #include <sys/stat.h>
 
@@ -105,6 +112,8 @@ static void history(void)
 /* ---- the real includer on materialised files ---- */
 static char workdir[256];
 
+static int padfiles = 0;
+
 static int materialise(void)
 {
 	FILE *stack[64];
@@ -125,7 +134,14 @@ static int materialise(void)
 		else if (!strcmp(op, "ifz"))   { fputs("#if NeverAssertedZz\n", stack[sp - 1]); i++; }
 		else if (!strcmp(op, "skip"))  { fputs("skipped line\n", stack[sp - 1]); i++; }
 		else if (!strcmp(op, "endif")) { fputs("#endif\n", stack[sp - 1]); i++; }
+		else if (!strcmp(op, "err") && i + 3 < drv_ntok) i += 4;
 		else if (!strcmp(op, "hl") && i + 2 < drv_ntok) {
+			if (padfiles && strcmp(drv_tok[i + 2], "-") && access(drv_tok[i + 2], F_OK)) {
+				FILE *pf = fopen(drv_tok[i + 2], "w"); int k;
+				if (!pf) return 0;
+				for (k = 0; k < 3000; k++) fputs("-- pad\n", pf);
+				fclose(pf);
+			}
 			if (strcmp(drv_tok[i + 2], "-")) fprintf(stack[sp - 1], "#line %s \"%s\"\n", drv_tok[i + 1], drv_tok[i + 2]);
 			else fprintf(stack[sp - 1], "#line %s\n", drv_tok[i + 1]);
 			i += 3;
@@ -147,6 +163,7 @@ static void cleanup(void)
 	int i;
 	for (i = 1; i + 1 < drv_ntok; i++)
 		if (!strcmp(drv_tok[i], "open") || !strcmp(drv_tok[i], "inc")) unlink(drv_tok[i + 1]);
+		else if (padfiles && !strcmp(drv_tok[i], "hl") && i + 2 < drv_ntok && strcmp(drv_tok[i + 2], "-")) unlink(drv_tok[i + 2]);
 }
 
 static void includer(void)
@@ -169,6 +186,77 @@ static void includer(void)
 	comsgFini();
 	sposFini();
 	cleanup();
+}
+
+/* ---- the real report (comsgFini -> comsgReportFile) on messages at includer-made positions ---- */
+struct errreq { int mark, d, prio, seq; char *id; };
+static int errcmp(const void *a, const void *b)
+{
+	const struct errreq *x = a, *y = b;
+	return x->prio != y->prio ? (x->prio < y->prio ? -1 : 1) : x->seq - y->seq;
+}
+
+static void reporter(void)
+{
+	static struct errreq errs[4096];
+	static SrcPos marks[MAXPOS];
+	SrcLineList sll, l;
+	int nerr = 0, nmark = 0, i, count = 0;
+	char *buf = NULL; size_t sz = 0; FILE *save, *mem; char *ln, *nx;
+	padfiles = 1;
+	if (drv_ntok < 3 || strcmp(drv_tok[1], "open") || !materialise()) { cleanup(); padfiles = 0; printf("bad-op"); return; }
+	/* which source line does each err belong to */
+	for (i = 3; i < drv_ntok; ) {
+		char *op = drv_tok[i];
+		if (!strcmp(op, "line") || !strcmp(op, "ifz") || !strcmp(op, "endif")) { nmark++; i++; }
+		else if (!strcmp(op, "lines")) { nmark += atoi(drv_tok[i + 1]); i += 2; }
+		else if (!strcmp(op, "inc")) { nmark++; i += 2; }
+		else if (!strcmp(op, "hl")) i += 3;
+		else if (!strcmp(op, "err")) {
+			if (nerr < 4096 && nmark > 0) {
+				errs[nerr].mark = nmark - 1; errs[nerr].d = atoi(drv_tok[i + 1]); errs[nerr].id = drv_tok[i + 2];
+				errs[nerr].prio = atoi(drv_tok[i + 3]); errs[nerr].seq = nerr; nerr++;
+			}
+			i += 4;
+		}
+		else i++;
+	}
+	qsort(errs, nerr, sizeof errs[0], errcmp);
+	sposInit();
+	comsgInit();
+	comsgSetOption("no-emax");
+	sll = includeFile(fnameParse(drv_tok[2]));
+	nmark = 0;
+	for (l = sll; l && nmark < MAXPOS; l = cdr(l)) marks[nmark++] = car(l)->spos;
+	for (i = 0; i < nerr; i++) {
+		char text[80];
+		if (errs[i].mark >= nmark) continue;
+		snprintf(text, sizeof text, "m%s", errs[i].id);
+		comsgError(abNewNothing(sposOffset(marks[errs[i].mark], errs[i].d)), ALDOR_E_ExplicitMsg, text);
+	}
+	fflush(stdout);
+	save = osStdout;
+	mem = open_memstream(&buf, &sz);
+	osStdout = mem;
+	comsgFini();
+	osStdout = save;
+	fclose(mem);
+	for (ln = buf; ln && *ln; ln = nx) {
+		int a, b, c; char t[80], fn[256];
+		nx = strchr(ln, '\n');
+		if (nx) *nx++ = 0;
+		if (ln[0] == '"') {
+			char *q = strchr(ln + 1, '"');
+			if (q && sscanf(q, "\", line %d:", &a) == 1) { *q = 0; printf("H:%s:%d ", ln + 1, a); }
+		}
+		else if (sscanf(ln, "[L%d C%d] #%d (Error) %79s", &a, &b, &c, t) == 4) { printf("M:%d:%d:%d:%s ", a, b, c, t); count++; }
+	}
+	printf("n=%d", count);
+	free(buf);
+	inclFree(sll);
+	sposFini();
+	cleanup();
+	padfiles = 0;
 }
 
 int main(int argc, char **argv)
@@ -207,6 +295,7 @@ int main(int argc, char **argv)
 		}
 		else if (!strcmp(drv_tok[0], "H")) history();
 		else if (!strcmp(drv_tok[0], "I")) includer();
+		else if (!strcmp(drv_tok[0], "R")) reporter();
 		else printf("bad-op");
 		DRV_EMIT();
 	}
